@@ -90,12 +90,39 @@ Proof. intro Hl. rewrite <- (Z2Nat.id l Hl) at 1. rewrite py_fpow_nat, Qcpower_t
 Lemma Qc_eqb_refl x : Qc_eqb x x = true.
 Proof. apply Qc_eqb_eq. reflexivity. Qed.
 
+(* the boundary tests of level_to_num_points_1d, in BOTH versions of the source: math.isclose(start, a) / end == b (up to /repo
+   f7c3775) and the helper methods Grid1d.touches_lower_boundary / touches_upper_boundary with the domain-relative tolerance
+   |start - a| <= 1e-8 * |b - a| (fixes/C08-boundary-tests-domain-relative.patch).  On the whole interval (start = a, end = b) every
+   one of them answers True: the distance is 0 and the tolerance is non-negative. *)
+Lemma touch_refl (c x w : Qc) : (0 <= c)%Qc -> Qc_leb (Qc_abs (x - x)) (c * Qc_abs w) = true.
+Proof.
+  intro Hc. apply Qc_leb_le. replace (x - x)%Qc with (Q2Qc 0) by ring.
+  assert (Qc_abs (Q2Qc 0) = Q2Qc 0) as -> by reflexivity.
+  assert (Q2Qc 0 <= Qc_abs w)%Qc as Hw.
+  { unfold Qc_abs. destruct (Qc_leb 0 w) eqn:E; [apply Qc_leb_le; exact E|].
+    assert (~ (0 <= w)%Qc) as N by (intro H; apply Qc_leb_le in H; congruence).
+    apply Qcnot_le_lt in N. qc_order. }
+  revert Hc Hw. generalize (Qc_abs w). intro y.
+  unfold Qcle, Qcmult, Q2Qc; cbn [this]. rewrite !Qred_correct. intros Hc Hy. apply Qmult_le_0_compat; assumption.
+Qed.
+
+(* helper methods the generated function calls (translated as separate definitions returning option bool): unfold whatever
+   generated definition sits at the head of a bound call with three arguments - the proof does not name them, so that it runs on
+   source versions with and without the helpers *)
+Ltac unfold_helper_calls :=
+  repeat match goal with
+  | |- context [bindE (?f _ _ _) _] => progress (unfold f); cbn [run_flow]
+  end.
+Ltac touch_tests :=
+  rewrite ?py_isclose_refl, ?Qc_eqb_refl;
+  repeat (rewrite touch_refl by (unfold Qcle; vm_compute; discriminate)).
+
 (* the generated level_to_num_points_1d on the whole interval [a, b] is the model's point count (an int in Python for
    level >= 0; the translation reads 2 ** level as the rational number) *)
 Theorem gen_num_points_is_model bd a b l : 0 <= l -> gen_num_points bd a b l = Some (qc_of_Z (num_points_1d bd l)).
 Proof.
   intro Hl. unfold gen_num_points, TrapezoidalGrid1D_level_to_num_points_1d.
-  rewrite ?(py_fpow_two l Hl), ?py_isclose_refl, ?Qc_eqb_refl. unfold num_points_1d.
+  rewrite ?(py_fpow_two l Hl). cbn [bindE]. unfold_helper_calls. touch_tests. unfold num_points_1d.
   destruct bd; exec; f_equal; to_Z; f_equal; lia.
 Qed.
 
